@@ -9,12 +9,16 @@ ap = argparse.ArgumentParser()
 ap.add_argument('--patches', default='')
 ap.add_argument('--checks', default='')
 ap.add_argument('--out', default=os.path.join(HERE, 'findings', 'neutral_matrix.json'))
+ap.add_argument('--shard', default='')   # i/n: every n-th patch starting at i
 a = ap.parse_args()
 ALL = ['C%02d' % i for i in range(1, 21)]
 checks = a.checks.split(',') if a.checks else ALL
 patches = sorted(glob.glob(os.path.join(HERE, 'neutral', '*', 'patch.diff')))
 if a.patches:
     patches = [p for p in patches if any(k in p for k in a.patches.split(','))]
+if a.shard:
+    _i, _n = map(int, a.shard.split('/'))
+    patches = patches[_i::_n]
 scratch = tempfile.mkdtemp(prefix='mcx-neutral-')
 repo = os.path.join(scratch, 'repo')
 subprocess.check_call(['git', 'clone', '-q', '/repo', repo])
